@@ -18,6 +18,19 @@ Vertex = Vertex  # re-exported for eglib.graphs
 class SubVertex(Vertex):
     kind = "k"      # a class-level constant (title formats may refer to it just like to an instance attribute)
 
+    @property
+    def code(self):
+        """A normalising property that keeps its raw value in the instance dictionary under its own name (a data
+        descriptor wins over the instance dictionary, so `v.code` / `v["code"]` are the NORMALISED value)."""
+        raw = self.__dict__.get("code")
+        if raw is None:
+            raise AttributeError("code")
+        return raw.upper()
+
+    @code.setter
+    def code(self, raw):
+        self.__dict__["code"] = raw
+
 
 class FalsyVertex(Vertex):
     """A vertex whose truth value is False (C08: answers must not depend on it)."""
